@@ -68,9 +68,10 @@ def valid_candidates(t):
     if t == "command":
         return gen.commands()
     if t in ("net.ipaddress", "net.IPAddress"):
-        return st.one_of(gen.ip_strings(), st.integers(0, 2**32 - 1), gen.ip_strings().map(lambda s: M("pyip", s)))
+        return st.one_of(gen.ip_strings(), st.integers(0, 2**32 - 1), gen.ip_strings().map(lambda s: M("pyip", s)),
+                         st.sampled_from(IP_INTS))
     if t in ("net.ipnetwork", "net.IPNetwork"):
-        return gen.ip_networks()
+        return st.one_of(gen.ip_networks(), gen.ip_networks(), st.sampled_from(IP_INTS))
     if t == "net.ipv4.Address":
         return gen.ipv4_strings()
     if t == "stringlist":
@@ -82,6 +83,12 @@ def valid_candidates(t):
     if t == "record":
         return st.one_of(st.none(), gen.record_spec(2, types=["string", "varint"]).map(lambda r: M("rec", r)))
     raise KeyError(t)
+
+
+# integers that are addresses, and the same numbers as non-integers (equal and equally hashed in Python, but not
+# addresses: the ipaddress module refuses them) - an address parser must not confuse the two, whatever it saw before
+IP_INTS = [0, 1, 3232235777, 2**32 - 1, 2**32, 2**53]
+NOT_IP_NUMBERS = [float(n) for n in IP_INTS] + [M("num", (k, n)) for k in ("decimal", "fraction", "complex") for n in IP_INTS[:4]]
 
 
 def reject_candidates(t):
@@ -104,9 +111,10 @@ def reject_candidates(t):
             {"md5": "d4 1d 8c d9 8f 00 b2 04 e9 80 09 98 ec f8 42 7e"},
         ])
     if t in ("net.ipaddress", "net.IPAddress"):
-        return st.sampled_from(["999.1.1.1", "not an ip", "1.2.3", "::g", "", "10.0.0.0/8", "1.2.3.4.5", -1, 2**128])
+        return st.sampled_from(["999.1.1.1", "not an ip", "1.2.3", "::g", "", "10.0.0.0/8", "1.2.3.4.5", -1, 2**128]
+                               + NOT_IP_NUMBERS)
     if t in ("net.ipnetwork", "net.IPNetwork"):
-        return st.sampled_from(["10.0.0.1/8", "x/33", "10.0.0.0/33", "nonsense", "::1/129", "1.2.3.4/-1"])
+        return st.sampled_from(["10.0.0.1/8", "x/33", "10.0.0.0/33", "nonsense", "::1/129", "1.2.3.4/-1"] + NOT_IP_NUMBERS)
     if t == "bytes":
         return st.sampled_from(["text", 5, M("list", ["a"]), 1.5, True])
     return None
@@ -235,6 +243,11 @@ def build_candidate(v):
             return tuple(build_candidate(x) for x in v.p)
         if v.kind == "pyip":
             return _ip.ip_address(v.p)
+        if v.kind == "num":
+            import decimal
+            import fractions
+
+            return {"decimal": decimal.Decimal, "fraction": fractions.Fraction, "complex": complex}[v.p[0]](v.p[1])
         if v.kind == "ftinst":
             return ftype(v.p[0])(build_candidate(v.p[1]))
         if v.kind == "typedlist":
